@@ -64,24 +64,17 @@ impl<'a> UserModel<'a> {
                                 .update_cell(*row, *column, value)?;
                         }
                         None => {
-                            if spill_dims.is_some() {
-                                // The spill cells were already cleared above; only
-                                // the anchor itself remains.  range_clear_all would
-                                // re-expand to the full spill range and erase cells
-                                // that were just restored by earlier diffs in this
-                                // same undo operation (e.g. the cut source that
-                                // overlaps the paste target's spill area).
-                                let _ = self
-                                    .model
-                                    .workbook
-                                    .worksheet_mut(*sheet)?
-                                    .cell_clear_contents(*row, *column);
-                            } else {
-                                self.model
-                                    .workbook
-                                    .worksheet_mut(*sheet)?
-                                    .cell_clear_contents(*row, *column)?;
-                            }
+                            // There was no cell before the input: remove the cell so that
+                            // a style implied by the input (`10%`, `$5`, a date, ...)
+                            // does not stay behind. The spill cells (if any) were already
+                            // cleared above; range_clear_all would re-expand to the full
+                            // spill range and erase cells that were just restored by
+                            // earlier diffs in this same undo operation (e.g. the cut
+                            // source that overlaps the paste target's spill area).
+                            self.model
+                                .workbook
+                                .worksheet_mut(*sheet)?
+                                .remove_cell(*row, *column)?;
                         }
                     }
                 }
